@@ -36,6 +36,12 @@ MANIFEST = dict(
     technique="Lean 4 proof on hand-written model + correspondence (exact state equality, Lean-run wfCheck on impl arrays)",
     design="§7 C05")
 
+MODELLED = ["distance3d/aabb_tree.py:" + f for f in (
+    "AabbTree.__init__", "AabbTree.insert_aabbs", "AabbTree.insert_aabb", "AabbTree.overlaps_aabb_tree",
+    "AabbTree.overlaps_aabb", "insert_aabbs", "insert_leaf", "fix_upward_tree", "query_overlap_of_other_tree",
+    "query_overlap", "all_aabbs_overlap", "aabb_overlap", "_sort_aabbs", "_merge_aabb", "_aabb_volume",
+    "_aabb_x_size", "_aabb_y_size", "_aabb_z_size")]
+
 MODES = ["none", "sort", "shuffle"]
 
 
